@@ -84,8 +84,9 @@ type evStep struct {
 type evScenario struct {
 	ID  int `json:"id"`
 	Cfg struct {
-		Fin bool `json:"fin"`
-		W   int  `json:"W"`
+		Fin bool   `json:"fin"`
+		W   int    `json:"W"`
+		NF  string `json:"nf"` // "error": a missing receipt is answered with the error "not found"; else null
 	} `json:"cfg"`
 	Init struct {
 		Latest int `json:"latest"`
@@ -134,7 +135,8 @@ type evNode struct {
 	variant       map[uint64]int
 	txs           map[string][]evLogSpec
 	rcpt          map[string]*evRcpt
-	armed         map[string]bool
+	armed         map[string]string // call kind -> error text class of the one-shot transient failure
+	nfErr         bool              // a missing receipt is answered with the error "not found" instead of a null result
 
 	// naming
 	txName  map[ethcommon.Hash]string
@@ -473,18 +475,45 @@ func (n *evNode) applyEnv(st evStep) {
 		n.rcpt[tx].status = 0
 		n.emit("FailTx", map[string]interface{}{"tx": tx}, nil)
 	case "Arm":
-		k := vhStr(a, "kind")
-		n.armed[k] = true
-		n.emit("Arm", map[string]interface{}{"kind": k}, nil)
+		k, text := vhStr(a, "kind"), vhStr(a, "text")
+		if _, ok := evErrTexts[text]; !ok {
+			text = "generic"
+		}
+		n.armed[k] = text
+		n.emit("Arm", map[string]interface{}{"kind": k, "text": text}, nil)
 	}
 }
 
-func (n *evNode) fails(kind string) bool {
-	if n.armed[kind] {
+// evRPCErr is a JSON-RPC error with a code and data (what a node answers when its backend lags, rate-limits, ...).
+type evRPCErr struct {
+	code int
+	msg  string
+	data interface{}
+}
+
+func (e *evRPCErr) Error() string          { return e.msg }
+func (e *evRPCErr) ErrorCode() int         { return e.code }
+func (e *evRPCErr) ErrorData() interface{} { return e.data }
+
+// The alphabet of TRANSIENT failures of a call.  None of them says that the transaction is unknown: only a null
+// result or the exact error "not found" does (that is how a missing receipt is answered, see nfErr).
+var evErrTexts = map[string]error{
+	"generic":   fmt.Errorf("verif: transient error"),
+	"header":    &evRPCErr{-32000, "header not found", nil},
+	"block":     &evRPCErr{-32000, "block not found", nil},
+	"retry":     fmt.Errorf("not found: try again"),
+	"coded":     &evRPCErr{-32005, "limit exceeded", map[string]interface{}{"rate": map[string]interface{}{"allowed_rps": 1, "backoff_seconds": 30}}},
+	"timeout":   fmt.Errorf("context deadline exceeded (Client.Timeout exceeded while awaiting headers)"),
+	"unknownbk": &evRPCErr{-39001, "Unknown block", "0x"},
+}
+
+// fails consumes the armed one-shot failure of this call kind and returns the error to answer with.
+func (n *evNode) fails(kind string) error {
+	if text, ok := n.armed[kind]; ok {
 		delete(n.armed, kind)
-		return true
+		return evErrTexts[text]
 	}
-	return false
+	return nil
 }
 
 // ---------------------------------------------------------------- the `eth` JSON-RPC service
@@ -527,12 +556,12 @@ func (e *evEth) GetBlockByNumber(ctx context.Context, tag string, full bool) (ma
 			n.emit("R_Req", map[string]interface{}{"tx": n.rCur}, nil)
 		}
 		n.rHead = true
-		if n.fails("rhead") {
-			n.emit("R_Head", map[string]interface{}{"tag": tag, "ok": false, "n": 0}, nil)
+		if err := n.fails("rhead"); err != nil {
+			n.emit("R_Head", map[string]interface{}{"tag": tag, "ok": false, "n": 0, "err": err.Error()}, nil)
 			if n.rCur == "t0" {
 				n.rDone = true
 			}
-			return nil, fmt.Errorf("verif: transient error")
+			return nil, err
 		}
 		n.emit("R_Head", map[string]interface{}{"tag": tag, "ok": true, "n": int(num)}, nil)
 		if n.rCur != "t0" {
@@ -549,9 +578,9 @@ func (e *evEth) GetBlockByNumber(ctx context.Context, tag string, full bool) (ma
 		return resp, nil
 	default:
 		n.pollTag = tag
-		if n.fails("poll") {
-			n.emit("B_Poll", map[string]interface{}{"tag": tag, "ok": false, "n": 0}, nil)
-			return nil, fmt.Errorf("verif: transient error")
+		if err := n.fails("poll"); err != nil {
+			n.emit("B_Poll", map[string]interface{}{"tag": tag, "ok": false, "n": 0, "err": err.Error()}, nil)
+			return nil, err
 		}
 		n.emit("B_Poll", map[string]interface{}{"tag": tag, "ok": true, "n": int(num)}, nil)
 		if num > n.pl {
@@ -577,9 +606,11 @@ func (e *evEth) GetBlockByHash(ctx context.Context, h ethcommon.Hash, full bool)
 		n.emit(ev, map[string]interface{}{"blk": []int{-1, -1}, "ok": false}, nil)
 		return nil, nil
 	}
-	if kind != "" && n.fails(kind) {
-		n.emit(ev, map[string]interface{}{"blk": []int{b[0], b[1]}, "ok": false}, nil)
-		return nil, fmt.Errorf("verif: transient error")
+	if kind != "" {
+		if err := n.fails(kind); err != nil {
+			n.emit(ev, map[string]interface{}{"blk": []int{b[0], b[1]}, "ok": false, "err": err.Error()}, nil)
+			return nil, err
+		}
 	}
 	n.emit(ev, map[string]interface{}{"blk": []int{b[0], b[1]}, "ok": true}, nil)
 	return &ethtypes.Header{Number: big.NewInt(int64(b[0])), Time: evBlkTime(uint64(b[0]), b[1]), Difficulty: big.NewInt(0)}, nil
@@ -625,15 +656,23 @@ func (e *evEth) GetTransactionReceipt(ctx context.Context, h ethcommon.Hash) (*e
 			}
 		}
 	}
-	if n.fails(kind) {
-		n.emit(ev, map[string]interface{}{"tx": tx, "resp": map[string]interface{}{"kind": "error"}}, nil)
+	if err := n.fails(kind); err != nil {
+		n.emit(ev, map[string]interface{}{"tx": tx, "resp": map[string]interface{}{"kind": "error", "err": err.Error()}}, nil)
 		after()
-		return nil, fmt.Errorf("verif: transient error")
+		return nil, err
 	}
 	r := n.rcpt[tx]
 	if r == nil {
-		n.emit(ev, map[string]interface{}{"tx": tx, "resp": map[string]interface{}{"kind": "notfound"}}, nil)
+		// the two genuine "unknown transaction" answers: a null result, or the error "not found"
+		style := "null"
+		if n.nfErr {
+			style = "error"
+		}
+		n.emit(ev, map[string]interface{}{"tx": tx, "resp": map[string]interface{}{"kind": "notfound", "style": style}}, nil)
 		after()
+		if n.nfErr {
+			return nil, &evRPCErr{-32000, "not found", nil}
+		}
 		return nil, nil
 	}
 	n.emit(ev, map[string]interface{}{"tx": tx, "resp": map[string]interface{}{"kind": "found", "status": int(r.status), "blk": evBlk(r.n, r.g)}}, nil)
@@ -987,7 +1026,7 @@ func evRunScenario(t *testing.T, tr *vhTrace, sc evScenario) {
 		t.Fatal(err)
 	}
 	n := &evNode{tr: tr, sc: sc.ID, latest: uint64(sc.Init.Latest), final: uint64(sc.Init.Final),
-		variant: map[uint64]int{}, txs: map[string][]evLogSpec{}, rcpt: map[string]*evRcpt{}, armed: map[string]bool{},
+		variant: map[uint64]int{}, txs: map[string][]evLogSpec{}, rcpt: map[string]*evRcpt{}, armed: map[string]string{},
 		txName: map[ethcommon.Hash]string{}, blkName: map[ethcommon.Hash][2]int{}, sndName: map[ethcommon.Address]string{},
 		abi: parsed, msgC: make(chan *common.MessagePublication, 4096)}
 	n.contract = ethcommon.BytesToAddress(evHash("core").Bytes()[:20])
@@ -996,6 +1035,7 @@ func evRunScenario(t *testing.T, tr *vhTrace, sc evScenario) {
 	if sc.Cfg.Fin {
 		n.chainID = vaa.ChainIDEthereum
 	}
+	n.nfErr = sc.Cfg.NF == "error"
 	n.pollTag = "latest"
 	if sc.Cfg.Fin {
 		n.pollTag = "finalized"
